@@ -55,9 +55,9 @@ Cfg_qlatch == { LatchCfg(2, << <<O("cd", 1)>>, <<O("cd", 1)>>, <<a>> >>) : a \in
 \* spurious failure of the weak compare-exchange
 Cfg_spur == { FutCfgS(<<SV, <<O("of", 0)>>, <<a>> >>) : a \in {O("of", 0), O("get", 0), O("rd", 0)} }
 Cfg_sc == Cfg_q2 \cup Cfg_qseq \cup Cfg_qlatch \cup Cfg_spur
-\* KNOWN FINDING (findings/C08_waiter_counter_overflow.md): the waiter counter shares the futex word with READY_MASK and
-\* is incremented by every slow-path wait, also those that time out: 2^31 - fx0 more polls carry into the READY bit
-Cfg_overflow == { [mode |-> "fut", count |-> 0, spur |-> FALSE, fx0 |-> READY - 2, prog |-> << <<O("wf", 0), O("wf", 0), O("get", 0)>> >>],
+\* REGRESSION family for findings/C08_waiter_counter_overflow.md (fixed by c8a8a14): with a waiter COUNTER in the futex word
+\* 2^31 slow-path waits carried into the READY bit; waiters now set a flag, a word just below READY must stay below it
+Cfg_overflow == { [mode |-> "fut", count |-> 0, spur |-> FALSE, fx0 |-> READY - 2, prog |-> << <<O("wf", 0), O("wf", 0), O("wf", 1), O("rd", 0)>> >>],
                   [mode |-> "fut", count |-> 0, spur |-> FALSE, fx0 |-> READY - 2, prog |-> << <<O("wf", 0), O("rd", 0)>>, <<O("wf", 1), O("of", 0)>> >>] }
 \* liveness (tiny)
 Cfg_live == { FutCfg(<<SV, <<O("get", 0)>>, <<O("wf", 1)>> >>), FutCfg(<<SV, <<O("of", 0)>>, <<O("get", 0)>> >>),
